@@ -510,10 +510,13 @@ def null1(ctx: Ctx) -> None:
             if ok:
                 h = [h for h in tries[0].handlers if "ValueError" in norm(h.type)][0]
                 tgt = norm(_stmt(m311, s).targets[0])
-                if [norm(x) for x in h.body] == [f"{tgt} = None"]:
+                hb_ = [x for x in h.body if not isinstance(x, (ast.Pass, ast.Assert)) and not (isinstance(x, ast.Expr) and isinstance(x.value, ast.Constant))]
+                if [norm(x) for x in hb_] == [f"{tgt} = None"]:
                     ctx.R.ok("NULL-1", f"_lowlevel_cpython_311.inspect_frame: {norm(s)}", "NULL slot -> ValueError -> None")
-                else:
+                elif any(isinstance(x, (ast.Raise, ast.Continue, ast.Break, ast.Return)) for x in hb_) or (len(hb_) == 1 and isinstance(hb_[0], ast.Assign) and norm(hb_[0].targets[0]) == tgt):
                     ctx.R.fail("NULL-1", m311, h, "a NULL stack slot must be recorded as None")
+                else:
+                    ctx.R.undecided("NULL-1", f"the ValueError handler of `{norm(s)[:40]}` is not the plain `{tgt} = None`")
             else:
                 ctx.R.fail("NULL-1", m311, s, "reading a py_object array element raises ValueError for a NULL PyObject*: without the handler a NULL slot aborts the inspection (and every context is lost)")
     m310 = ctx.P.mod("_lowlevel_cpython_310")
@@ -704,8 +707,30 @@ def snap(ctx: Ctx) -> None:
             ctx.R.ok("SNAP-7", "handler_depth defaults to 0 when no entry covers the position")
         use = [st for st in ast.walk(tr) if isinstance(st, ast.Assign) and norm(st.targets[0]) == "stack_top_offset" and "handler_depth" in norm(st.value)]
         if len(use) == 1:
-            if norm(use[0].value) in ("stack_start_offset + wordsize * handler_depth", "stack_start_offset + handler_depth * wordsize", "wordsize * handler_depth + stack_start_offset"):
+            # evaluated numerically (engine MINI) at two points with distinct, co-prime-ish values: any way of writing the sum will do
+            from ..minieval import Mini, Raised, Unsupported
+            verdict = True
+            for ss_, ws_, hd_ in ((1000, 8, 3), (4096, 4, 7)):
+                env_ = {"stack_start_offset": ss_, "wordsize": ws_, "handler_depth": hd_}
+                for a_ in walk_scope(fn):      # locals the expression names that are themselves simple arithmetic over these
+                    if isinstance(a_, ast.Assign) and len(a_.targets) == 1 and isinstance(a_.targets[0], ast.Name) and a_ is not use[0] and a_.lineno < use[0].lineno \
+                            and {n_.id for n_ in ast.walk(a_.value) if isinstance(n_, ast.Name)} <= set(env_) and not any(isinstance(c_, ast.Call) for c_ in ast.walk(a_.value)) and a_.targets[0].id not in ("stack_start_offset", "wordsize", "handler_depth"):
+                        try:
+                            env_[a_.targets[0].id] = Mini(dict(env_)).expr(a_.value)
+                        except (Unsupported, Raised, Exception):
+                            pass
+                try:
+                    got_ = Mini(env_).expr(use[0].value)
+                except (Unsupported, Raised, Exception):
+                    verdict = None
+                    break
+                if got_ != ss_ + ws_ * hd_:
+                    verdict = False
+                    break
+            if verdict:
                 ctx.R.ok("SNAP-7", "running frame: stack_top_offset = stack_start_offset + wordsize * handler_depth")
+            elif verdict is None:
+                ctx.R.undecided("SNAP-7", f"stack_top_offset = {norm(use[0].value)[:60]} cannot be evaluated")
             else:
                 ctx.R.fail("SNAP-7", mod, use[0], "for a running frame the trusted stack extent must be stack_start_offset + wordsize * handler_depth", construct=f"stack_top_offset = {norm(use[0].value)}")
         gsu = [(norm(gx), pol) for gx, pol in guards_of(mod, use[0], fn)] if use else []
